@@ -133,4 +133,8 @@ Definition reorder (positional : list string) (args : list argspec) : list argsp
 (** Task.get_arguments *)
 Definition get_arguments (s : tsig) : list argspec :=
   let pos := fill_implicit_positionals s in
-  reorder pos (build_args (s_deco s) pos (s_params s) (map p_name (s_params s))).
+  (* taken_names = set(parameter names), then also their command-line
+     (dashed) spellings -- commit d208a4d *)
+  reorder pos (build_args (s_deco s) pos (s_params s)
+                          (map p_name (s_params s) ++
+                           map (fun p => translate_underscores (p_name p)) (s_params s))).
